@@ -9,17 +9,23 @@ CLAIM = {
           'printable identifier, all records and layouts), bit_identified_c13 (TD.C13.encode of any non-empty list of well-formed '
           'passes), dat_identified (TD.C14.Spec.print f in every layout, with the DAT trial parse instantiated by the C14 model '
           'canParseFile and proved to accept the file), lis_identified (TD.C05.encode L (header :: records) for every valid '
-          'layout and TIF mode, with the deep test _lis made concrete as TD.C20.lisTest = C05 pad-option scan + reader, C06 FileIndex, '
-          'TIF state, and PROVED to answer the code of the layout when the file has >= 100 physical records (lis_identified_short: or '
-          'the stated scan condition) and building the index over the records does not raise), plus the '
+          'layout and TIF mode, with the deep test _lis made concrete as TD.C20.lisTest = the repaired two-round loop (pr_limit 100, then '
+          'the whole file; every pad option with the maximal count tried in dict order, options that raise or give an empty index '
+          'skipped; C05 pad scan + reader, C06 FileIndex), PROVED to answer the code of the layout when in one of the two rounds no '
+          'option over-counts (or the file has >= 100 physical records) and building the index does not raise; '
+          'lis_answer_is_tif_state: for EVERY byte string the answer, if any, is the code of the TIF state of the first 12 bytes, '
+          'whichever option succeeded), plus the '
           'prefix-level rp66_identified / bit_identified / lis_family_identified_partial / dat_text_identified and the scanner-level '
           'las12/las20_identified_partial. The model is tied to the code by a correspondence run on valid files of every format, '
           'all truncations <= 400 bytes, mutations, random bytes and adversarial text. "Raises nothing / terminates promptly / '
           'leaves the file readable" are properties of the CPython code, not of the model: they are exercised (partial), with every '
           'exception an oracle failure.'),
- 'note': ('Partial: residual hypotheses of lis_identified: >= 100 physical records (else the pad-scan heuristic condition of '
-          'pad_reader_refines_cond), FileIndex does not raise on the record contents (hidx), file < 2^32-24 bytes; lisTest reads whole '
-          'records where FileIndex reads parts (equal on written files by read_refines; compared with _lis on written files in stream '
+ 'note': ('Partial: residual hypotheses of lis_identified: the scan condition (>= 100 physical records, or no pad option over-counts in '
+          'the 100-scan, or none in the whole-file scan), FileIndex does not raise on the record contents (hidx), file < 2^32-24 '
+          'bytes. TD.C05.encode writes no PAD bytes: padded files (input class of the repaired defect 7ad9eab) are covered by '
+          'kernel-evaluated examples (ExamplesPad.lean), the oracle and the lis-deep stream, not by a theorem; one sub-class is still '
+          'misidentified by the repaired code (finding C20-lis-padded-wrong-option-overcounts). lisTest reads whole records where '
+          'FileIndex reads parts (equal on written files by read_refines; compared with _lis on written and padded files in stream '
           'lis-deep, files outside the C06 model scope skipped); LAS is proved at the level of the line scanner, not against TD.C09.print (whose number styles for VERS '
           'produce files the code does not identify: known finding FC20d). dat_identified needs "fifth byte is not V" (FC20e). '
           'Exceptions, timing and stream position are tested, not proved. Trusted: Lean kernel; Python re/struct/codecs (cp500).'),
@@ -34,7 +40,8 @@ RULE = ('size independence: for every format, files whose header part (declarati
         'version lines, DAT-like text with extreme fields, LIS-like record structures with garbage, very long lines. A case is '
         'non-trivial when it is a valid file that must be recognised, or an arbitrary string on which at least one signature test '
         'gets past its first comparison; distinct by the hash of the bytes.')
-ASSUMPTIONS = ['documented type codes are the 25 labels of FUNCTION_ID_MAP / BINARY_FILE_TYPE_DESCRIPTIONS at the time of writing',
+ASSUMPTIONS = ['a LIS file whose physical records are followed by null PAD bytes to a multiple of 2 or 4 (LIS-79 2.3.1.1) is a valid LIS file and must be identified as LIS',
+               'documented type codes are the 25 labels of FUNCTION_ID_MAP / BINARY_FILE_TYPE_DESCRIPTIONS at the time of writing',
                'a valid LIS file begins with a reel, tape or file header record whose name fields are printable ASCII; TIF-marked files '
                'whose first record is exactly 276 bytes are excluded (they carry the BIT signature)',
                'a valid DAT file has at least one data channel beside UTIM DATE TIME (RE_DATA_HEADER_DEFINITION requires it)',
